@@ -220,11 +220,11 @@ def py_h(lines, hashseed=None, extra_env=None):
     if extra_env:
         e.update(extra_env)
     ans = run_lines([PY, os.path.join(VERIF, 'harness/py/py_h.py')], lines, env=e)
-    # a request answered `(timeout)` (harness/py/py_h.py) is asked again, alone, with a much longer limit: on a loaded machine a slow
-    # request must not look like a hang of the code under test; a real hang stays `(timeout)` (at most 4 are re-examined)
-    late = [i for i, a in enumerate(ans) if a == '(timeout)'][:4]
+    # a request answered `(timeout)` (harness/py/py_h.py) is asked again, alone, with four times the limit: on a loaded machine a slow
+    # request must not look like a hang of the code under test; a real hang stays `(timeout)` (at most 2 are re-examined per batch)
+    late = [i for i, a in enumerate(ans) if a == '(timeout)'][:2]
     if late:
-        e2 = dict(e, PI2_REQ_TIMEOUT=str(min(3000, max(900, 10 * int(float(e.get('PI2_REQ_TIMEOUT', '60')))))))
+        e2 = dict(e, PI2_REQ_TIMEOUT=str(4 * int(float(e.get('PI2_REQ_TIMEOUT', '60')))))
         for i in late:
             ans[i] = run_lines([PY, os.path.join(VERIF, 'harness/py/py_h.py')], [lines[i]], env=e2)[0]
     return ans
